@@ -25,7 +25,10 @@ RULE = ('Templates: 26 bounded programs (<= 40 nodes: nested lists, calls with k
         'yields <= 2 x (initial + inserted nodes) + 4; original nodes are yielded in their original relative order; after replacing the current '
         'node (single action, on=enter) the next yield is the first child of the replacement that passes the filter; after removing it the next '
         'yield is the first still-alive node that followed it; after send(False) no descendant is yielded; nodes removed or replaced before '
-        'being reached are not yielded; the final tree satisfies the C01 invariant. Mutations that legitimately raise (norm=True refusals, '
+        'being reached are not yielded; the final tree satisfies the C01 invariant. search() is also checked against its documented definition over walk() (reference '
+        'written in the harness: walk + class match, consumer send() forwarded, send(False) after a match when nested=False and nothing was sent): every '
+        'template x 10 class patterns x nested x on x back x {no send, every single send(True / False) at each of the first 14 yields} must yield the same '
+        '(node, leaving) sequence. Mutations that legitimately raise (norm=True refusals, '
         'ordering rules) are skipped and counted. Non-trivial = the action changed the tree while the walk was in progress and at least one '
         'more node was yielded afterwards; distinct by (template, settings, schedule).')
 ASSUMPTIONS = [
@@ -114,6 +117,15 @@ def enumerate_cases(tier, shard, nshards, seed):
                 continue
 
             yield {'template': ti, 'setting': si, 'enumerate_single': True, 'slice': sl, 'seed': seed}
+
+    # search() against its definition over walk(): every template x pattern x nested x on x back, all single-send schedules (one case each)
+    for ti in range(len(TEMPLATES)):
+        for pi in range(len(SEARCH_PATS)):
+            for nested, on, back in itertools.product((True, False), ON, (False, True)):
+                k += 1
+
+                if k % nshards == shard:
+                    yield {'search_model': True, 'template': ti, 'pat': pi, 'nested': nested, 'on': on, 'back': back}
 
 
 def strategy(tier):
@@ -583,11 +595,107 @@ def run_search_sub(root, setting, schedule, ctx, kind, desc):
     return changed[0] is not None and count[0] > changed[0]
 
 
+SEARCH_PATS = (ast.Name, ast.Call, ast.BinOp, ast.Attribute, ast.Tuple, ast.If, ast.FunctionDef, ast.ListComp, ast.arguments, ast.Constant)
+
+
+def run_search_model(case, ctx):
+    """search(pat, nested, on=...) is documented as walk() + match() with the consumer's send() forwarded and, if the consumer sent nothing and
+    nested=False, a send(False) after a match. The reference below is that definition written over the public walk(); both run on fresh trees
+    of the same source with the same send schedule (no sends, and every single send of True / False at every yield), and must yield the same
+    (node, leaving) sequence."""
+
+    src = TEMPLATES[case['template']]
+    cls = SEARCH_PATS[case['pat']]
+    nested, on, back = case['nested'], case['on'], case['back']
+
+    def key(f, leaving):
+        return (f.a.__class__.__name__, tuple(f.loc) if f.loc else None, leaving)
+
+    def actual(sends):
+        root = FST(src, 'exec')
+        gen_ = root.search(cls, nested, on=on, back=back)
+        out = []
+
+        for k, item in enumerate(gen_):
+            m, leaving = item if on == 'both' else (item, None)
+            out.append(key(m.matched, leaving))
+
+            if len(out) > 400:
+                raise Violation('C15.termination', f'search over {src!r} does not end', 'termination:search_model')
+
+            if k in sends:
+                gen_.send(sends[k])
+
+        return out
+
+    def reference(sends):
+        root = FST(src, 'exec')
+        gen_ = root.walk(True, on, back=back)
+        out = []
+        k = 0
+
+        for item in gen_:
+            f, leaving = item if on == 'both' else (item, None)
+
+            if f.a.__class__ is not cls:
+                continue
+
+            out.append(key(f, leaving))
+
+            if len(out) > 400:
+                raise Skip('reference_walk_does_not_end')
+
+            if k in sends:
+                gen_.send(sends[k])
+            elif not nested:
+                gen_.send(False)
+
+            k += 1
+
+        return out
+
+    base = reference({})
+    schedules = [{}] + [{i: v} for i in range(min(len(base), 14)) for v in (True, False)]
+
+    for sends in schedules:
+        desc = f'search({cls.__name__}, nested={nested}, on={on!r}, back={back}) over {src!r} with sends {sends}'
+
+        try:
+            want = reference(sends)
+        except Skip:
+            raise
+        except Exception as exc:
+            ctx.count(f'search_model_reference_raised:{type(exc).__name__}')
+
+            continue
+
+        try:
+            got = actual(sends)
+        except Violation:
+            raise
+        except Exception as exc:
+            raise Violation('C15.raise', f'{desc}: raised {exc!r}', f'raise:{type(exc).__name__}@{fst_site(exc)}:search_model') from None
+
+        ctx.count('search_model_schedules')
+
+        if got != want:
+            i = next((i for i in range(min(len(got), len(want))) if got[i] != want[i]), min(len(got), len(want)))
+
+            raise Violation('C15.search_model', f'{desc}: yields differ from walk()+match() at #{i}: search {got[i:i + 3]} reference {want[i:i + 3]}', f'search_model:{on}:nested={nested}')
+
+        if sends and len(want) > 1 and want != base:
+            ctx.mark_nontrivial((case['template'], case['pat'], nested, on, back, tuple(sends.items())),
+                                {'kind': 'search_model', 'desc': desc, 'yields': len(want)} if case['template'] % 9 == 0 and case['pat'] == 0 else None)
+
+
 def on_timeout(case, ctx):
     raise Violation('C15.termination', f'case did not terminate within the case time limit: {str(case)[:300]}', 'timeout')
 
 
 def execute(case, ctx):
+    if case.get('search_model'):
+        return run_search_model(case, ctx)
+
     src = TEMPLATES[case['template']] if 'template' in case else case['src']
     setting = SETTINGS[case['setting']]
 
